@@ -254,6 +254,42 @@ let () =
       hex_of_bytes (List.filteri (fun i _ -> i < 4) full)
     | _ -> "BADARGS")
 
+
+let table_of = function
+  | "dl_mac" -> dl_mac_table | "ul_mac" -> ul_mac_table | "dl_dut" -> dl_dut_table
+  | "ul_dut" -> ul_dut_table | "dl_mc" -> dl_mc_table | "ul_mc" -> ul_mc_table
+  | _ -> failwith "set"
+let item_str = function
+  | IOk (cid, p) -> Printf.sprintf "%d:%s" (int_of_n cid) (hex_of_bytes p)
+  | IErr (UnknownCid c) -> Printf.sprintf "E:U%d" (int_of_n c)
+  | IErr (Truncated c) -> Printf.sprintf "E:T%d" (int_of_n c)
+  | IPanic -> "PANIC"
+let mc_listing set data =
+  let items = parse_all (table_of set) data in
+  if List.exists (fun i -> i = IPanic) items then "PANIC"
+  else if items = [] then "-" else String.concat "," (List.map item_str items)
+
+let () =
+  register "mc_parse" (function
+    | [set; h] -> mc_listing set (bytes_of_hex h)
+    | _ -> "BADARGS");
+  register "mc_sweep" (function
+    | [set; pre; n] ->
+      let pre = bytes_of_hex pre and n = int_of_string n in
+      let h = ref 0 and panics = ref 0 in
+      let total = 1 lsl (8 * n) in
+      for x = 0 to total - 1 do
+        let tail = List.init n (fun k -> n_of_int ((x lsr (8 * (n - 1 - k))) land 0xff)) in
+        let s = mc_listing set (pre @ tail) in
+        if s = "PANIC" then (incr panics; h := dg_step !h (-1))
+        else begin
+          String.iter (fun c -> h := dg_step !h (Char.code c)) s;
+          h := dg_step !h 1000
+        end
+      done;
+      Printf.sprintf "%d %d" !h !panics
+    | _ -> "BADARGS")
+
 let chip_index = function
   | "sx1261" | "sx1262" | "stm32wl" -> 0 | "sx1276" -> 1 | "sx1272" -> 2 | "lr1110" -> 3
   | _ -> failwith "chip"
